@@ -39,6 +39,11 @@ def nodeJ (n : C.Node) : Json :=
 
 def hCopy (j : Json) : Except String Json := do
   let a ← parseArgs j
+  let rawPats := match j.getObjVal? "args" with
+    | .ok aj => (getHexArr aj "include").toOption.getD [] ++ (getHexArr aj "exclude").toOption.getD []
+    | .error _ => []
+  if rawPats.any P.illegalBang then
+    return jobj [("res", Json.str "err"), ("why", "illegal exclusion pattern")]
   let src ← (← getArr j "src").toList.mapM parseSnap
   let before ← (← getArr j "before").toList.mapM parseSnap
   let srcRel := resolveIn src a.src a.follow
